@@ -7,7 +7,7 @@ import ast
 from .. import AnalysisError
 from ..astutil import calls_in, match, norm_stmt, parse_expr, path_of, unparse, walk_scope, walk_stmts
 from ..cfg import own_exprs
-from ..facts import Fact, enumerate_paths
+from ..facts import Fact, atoms, enumerate_paths
 from ..report import Ctx
 from .common import always_before, guard, ingredients_along, need, node_of, stmts_matching
 
@@ -157,7 +157,32 @@ def rule_continuation_provenance(ctx: Ctx) -> None:
         ok = len(sts) == 1 and path_of(sts[0].value) == f"{cparam}.{src}"
         ctx.ob("C02-1", "G7", pk, f"self.{attr} = …", ok, f"_park must store the continuation's `{src}` in `{attr}`",
                node=sts[0] if sts else pk.node)
-    ctx.floor("C02-1", 25)
+    # the constructors keep the very list / dict they are given (identity test, not truthiness: an empty hook list
+    # is falsy, and replacing it breaks the sharing between an event and its continuation)
+    for q in ("Event.__init__", "ProcessContinuation.__init__"):
+        fn = prog.func(EV, q)
+        for attr in ("on_complete", "context"):
+            sts = [s_ for s_ in walk_stmts(fn.node.body) if isinstance(s_, ast.Assign) and path_of(s_.targets[0]) == f"self.{attr}"]
+            if attr == "context" and q == "Event.__init__":
+                # two-branch form: `if context is not None: self.context = context ... else: {...}`
+                keep = [s_ for s_ in sts if path_of(s_.value) == attr]
+                okc = False
+                if keep:
+                    ffc = ctx.flow(fn)
+                    okc = ffc.holds_at(node_of(ffc.cfg, keep[0]), Fact("isnot", attr, "None"))
+                ctx.ob("C02-1", "G7", fn, f"self.{attr} keeps the given object", okc, f"{q}: a caller-supplied `{attr}` (even an empty one) is stored as the same object")
+                continue
+            ok = False
+            if len(sts) == 1 and isinstance(sts[0].value, ast.IfExp):
+                t = sts[0].value
+                f = atoms(t.test, True)
+                if len(f) == 1 and f[0].sig == ("isnot", attr, "None") and path_of(t.body) == attr:
+                    ok = True
+                if len(f) == 1 and f[0].sig == ("is", attr, "None") and path_of(t.orelse) == attr:
+                    ok = True
+            ctx.ob("C02-1", "G7", fn, f"self.{attr} keeps the given object", ok,
+                   f"{q}: a caller-supplied `{attr}` (even an empty one) is stored as the same object — the continuation shares the event's hook list, so hooks added later still run")
+    ctx.floor("C02-1", 28)
 
 
 def _ret_ingredients(ctx, fn, start_node=None, *, want_paths=None):
@@ -376,6 +401,25 @@ def rule_future_latch(ctx: Ctx) -> None:
         for st, _ in stmts_matching(rs, pat):
             missing = always_before(ctx, rs, lambda n: n.ast is latch[0][0], lambda n, st=st: n.ast is st)
             ctx.ob("C02-4", "G1", rs, st, not missing, f"{what}: `{norm_stmt(st)}` only runs behind the `_resolved` latch (set under `not _resolved`)")
+    # every resolving path: value stored, callbacks fired exactly once, parked process resumed iff there is one
+    rff0 = ctx.flow(rs)
+    bad = []
+    for pth in enumerate_paths(rff0, rff0.cfg.entry):
+        if pth.end != "exit":
+            continue
+        latched = any(n.ast is latch[0][0] for n in pth.nodes)
+        fires = sum(1 for n in pth.nodes for e in own_exprs(n) for c in walk_scope(e) if isinstance(c, ast.Call) and path_of(c.func) == "self._fire_callbacks")
+        resumes = sum(1 for n in pth.nodes for e in own_exprs(n) for c in walk_scope(e) if isinstance(c, ast.Call) and path_of(c.func) == "self._resume")
+        parked = pth.decided(lambda t: t == "self._parked_processisnotNone")
+        if latched and fires != 1:
+            bad.append(f"path [{pth.describe()}] fires settle callbacks {fires}x (any_of/all_of waiting on this future would never be told)")
+        if latched and parked is True and resumes != 1:
+            bad.append(f"path [{pth.describe()}] has a parked process but resumes {resumes}x")
+        if not latched and (fires or resumes):
+            bad.append(f"path [{pth.describe()}] acts without setting the latch")
+    ctx.ob("C02-4", "G2", rs, "each first resolve: fire callbacks once, resume iff parked", not bad,
+           "on every path that resolves the future, settle callbacks fire exactly once and a parked process (if any) is resumed exactly once — both a direct waiter and combinators can depend on one future"
+           + ("" if not bad else " — " + "; ".join(bad[:2])))
     vparam = [p for p in rs.params() if p != "self"][0]
     sts = stmts_matching(rs, "self._value = _V_")
     ctx.ob("C02-4", "G7", rs, sts[0][0], path_of(sts[0][1]["_V_"]) == vparam, "the stored value is the value passed to resolve()")
@@ -521,11 +565,11 @@ def rule_combinators(ctx: Ctx) -> None:
 
 
 def run(ctx: Ctx) -> None:
-    rule_continuation_provenance(ctx)
-    rule_return_discipline(ctx)
-    rule_hooks_one_shot(ctx)
-    rule_future_latch(ctx)
-    rule_combinators(ctx)
+    ctx.guarded(rule_continuation_provenance)
+    ctx.guarded(rule_return_discipline)
+    ctx.guarded(rule_hooks_one_shot)
+    ctx.guarded(rule_future_latch)
+    ctx.guarded(rule_combinators)
 
 
 MUTANTS = [
@@ -558,6 +602,11 @@ MUTANTS = [
     ("all-of-resolves-early", FUT, "        if remaining == 0:\n            composite.resolve(list(results))", "        if remaining <= 1:\n            composite.resolve(list(results))", "C02-5"),
     ("callbacks-not-cleared", FUT, "        callbacks = list(self._settle_callbacks)\n        self._settle_callbacks.clear()\n", "        callbacks = list(self._settle_callbacks)\n", "C02-5"),
     ("late-callback-never-fires", FUT, "        if self._resolved:\n            fn(self)\n        else:\n            self._settle_callbacks.append(fn)", "        self._settle_callbacks.append(fn)", "C02-5"),
+]
+MUTANTS += [
+    ("continuation-truthiness-fallback", EV, "        self.daemon = daemon\n        self.on_complete = on_complete if on_complete is not None else []\n        self._sort_index = _next_sort_index()\n        self._id = self._sort_index\n        self._cancelled = False\n        self.context = context if context is not None else {}",
+     "        self.daemon = daemon\n        self.on_complete = on_complete or []\n        self._sort_index = _next_sort_index()\n        self._id = self._sort_index\n        self._cancelled = False\n        self.context = context if context is not None else {}", "C02-1"),
+    ("resolve-skips-callbacks-when-parked", FUT, "        if self._parked_process is not None:\n            self._resume()\n        self._fire_callbacks()", "        if self._parked_process is not None:\n            self._resume()\n        elif self._settle_callbacks:\n            self._fire_callbacks()", "C02-4"),
 ]
 REFACTORS = [
     ("resume-time-inline", EV, ["            resume_time = self.time + delay\n", "                time=resume_time,\n"], ["", "                time=self.time + delay,\n"]),
